@@ -1682,6 +1682,7 @@ func (p *Parser) evaluateIf(ctx context) (Statement, error) {
 				ifStatement.elseBranch = Else{
 					body: statements,
 				}
+				break // An else-branch ends the if-statement.
 			} else {
 				ifStatement.elifBranches = append(ifStatement.elifBranches, IfBranch{
 					condition: condition,
